@@ -1,0 +1,15 @@
+//go:build verif
+
+package renderer
+
+import "diagonal.works/b6/verifrt"
+
+// Lemmas of the b6vc verifier (/verif). Parameters are universally
+// quantified; the bodies call the real functions.
+
+// C10 / C33: 32-bit zigzag coding of tile coordinate deltas. Tile coordinates
+// are below 2^31 in magnitude, so deltas are within int32.
+func verifLemma_C10_zigzag32(d int) {
+	verifrt.Assume(d >= -(1<<31) && d < 1<<31)
+	verifrt.Assert(zigzagDecode(zigzagEncode(d)) == d, "zigzag32-roundtrip")
+}
